@@ -111,8 +111,11 @@ def gen_molecule(ch, max_atoms=20, stereo=50, brackets=30, aromatic=20, fragment
         m.add_bond(a, b, o)
     # aromatic rings as substituents / standalone
     if aromatic and ch.bool(aromatic):
-        for _ in range(ch.int(1, 2)):
-            _add_aromatic_ring(ch, m)
+        if ch.bool(30):
+            _add_biaryl(ch, m)
+        else:
+            for _ in range(ch.int(1, 2)):
+                _add_aromatic_ring(ch, m)
     n = len(m.atoms)
     # bracket decorations
     for i in range(n):
@@ -229,6 +232,39 @@ def _add_aromatic_ring(ch, m):
     if carbons and ch.bool(30):
         j = m.add_atom(ch.pick(["F", "Cl", "O", "N", "C"]), 1)
         m.add_bond(ch.pick(carbons), j, 1)
+
+
+def _add_biaryl(ch, m):
+    """two aromatic six-rings joined by a SINGLE bond between aromatic atoms (biphenyl), optionally closed into a
+    third ring by a second direct bond (biphenylene) or a bridging atom (fluorene, carbazole, dibenzofuran ...):
+    in many spellings the aryl-aryl single bond is then a ring closure that needs an explicit '-' on one side."""
+    rings = []
+    for _ in range(2):
+        kinds = ["c"] * 6
+        if ch.bool(30):
+            kinds[ch.int(2, 5)] = "n"
+        ids = []
+        for k in kinds:
+            i = m.add_atom("C" if k == "c" else "N", 9)
+            m.atoms[i].update(arom=True, kind=k)
+            ids.append(i)
+        for x in range(6):
+            m.add_bond(ids[x], ids[(x + 1) % 6], 1.5)
+        rings.append(ids)
+    a, b = rings
+    m.add_bond(a[0], b[0], 1)
+    w = ch.weighted([(3, "open"), (2, "direct"), (4, "bridge")])
+    if w == "direct":
+        m.add_bond(a[1], b[1], 1)
+    elif w == "bridge":
+        el = ch.pick(["C", "O", "N", "S", "C"])
+        x = m.add_atom(el, VALENCE[el])
+        m.add_bond(a[1], x, 1)
+        m.add_bond(b[1], x, 1)
+    others = [j for j in range(a[0]) if m.free[j] >= 1 and not m.atoms[j]["arom"]]
+    free_c = [i for i in a[2:] + b[2:] if m.atoms[i]["kind"] == "c"]
+    if others and free_c and ch.bool(50):
+        m.add_bond(ch.pick(free_c), ch.pick(others), 1)
 
 
 # ------------------------------------------------------------------------------------------ writer
